@@ -161,14 +161,24 @@ def shortest (m : Nat) (e : Int) : List Nat × Int :=
       | none => go fuel (p + 1)
   go 17 1
 
+/-- n/d rounded to the nearest integer, ties to even (the rounding step of `'G', 15`) -/
+def roundAt (n d : Nat) : Nat :=
+  let q := n / d
+  let r := n % d
+  if 2 * r > d ∨ (2 * r = d ∧ q % 2 = 1) then q + 1 else q
+
+/-- numerator and denominator of |x|·10^(−s) for |x| = num/den -/
+def scaleFrac (num den : Nat) (s : Int) : Nat × Nat :=
+  if s ≥ 0 then (num, den * 10 ^ s.toNat) else (num * 10 ^ (-s).toNat, den)
+
 /-- x rounded to p significant digits (nearest, ties to even) -/
 def roundSig (m : Nat) (e : Int) (p : Nat) : List Nat × Int :=
   let num := if e ≥ 0 then m <<< e.toNat else m
   let den := if e ≥ 0 then 1 else 1 <<< (-e).toNat
   let k := log10Floor num den
   let s : Int := k - ((p : Int) - 1)
-  let (q, r, d) := scaled num den s
-  let v := if 2 * r > d ∨ (2 * r = d ∧ q % 2 = 1) then q + 1 else q
+  let (n', d') := scaleFrac num den s
+  let v := roundAt n' d'
   let ds := natDigits v
   (stripZeros ds, (ds.length : Int) + s)
 
@@ -221,6 +231,29 @@ def fmtGeneral (x : Float) : List Nat :=
     let (ds, dp) := roundSig d.m d.e 15
     let ex := dp - 1
     sign ++ (if ex < -9 ∨ ex ≥ 15 then fmtE ds dp 69 2 else fmtF ds dp)
+
+/-! ### the final rendering of a numeric result by `CalcCellValue` (RawCellValue)
+
+`isNumeric(token.Value())` yields the float and a "precision" = the length of its shortest
+positional spelling (`FormatFloat(x,'f',-1)`) without the decimal point — sign and leading zeros
+included; above 15 the value is rendered with `FormatFloat(x,'G',15)` (15 significant digits of
+the exact binary value, ties to even, trailing zeros dropped, `E±XX` form when the decimal
+exponent is < −4 or ≥ 15), otherwise with the shortest positional spelling. -/
+
+def renderNumber (x : Float) : List Nat :=
+  let d := decode x
+  if d.kind ≠ 0 then fmtG x
+  else
+    let sign := if d.neg then [45] else []
+    if d.m = 0 then sign ++ [48]
+    else
+      let (ds, dp) := shortest d.m d.e
+      let sf := sign ++ fmtF ds dp
+      if (sf.filter (· ≠ 46)).length > 15 then
+        let (ds15, dp15) := roundSig d.m d.e 15
+        let ex := dp15 - 1
+        sign ++ (if ex < -4 ∨ ex ≥ 15 then fmtE ds15 dp15 69 2 else fmtF ds15 dp15)
+      else sf
 
 /-! ### Go's math.Pow -/
 
